@@ -418,6 +418,15 @@ var journalPath = os.Getenv("VERIF_JOURNAL")
 
 func unwatch() { watchCur.Store(nil) }
 
+// Extend gives the case that is running d more before the watchdog takes it for a hang (for a
+// case that hands its input to a child process under a time limit of its own: the watchdog
+// measures wall clock time, and a busy machine stretches a CPU bound case).
+func Extend(d time.Duration) {
+	if w := watchCur.Load(); w != nil {
+		watchCur.Store(&watchSlot{start: w.start.Add(d), prop: w.prop, js: w.js})
+	}
+}
+
 // Eval runs one directly enumerated case (no rapid). Returns true if it passed.
 func Eval[C any](s *Suite, prop string, cs C, run func(C, *Ctx)) bool {
 	c := &Ctx{}
